@@ -1,4 +1,5 @@
 import PySMT.Proofs.WalkerMore
+import PySMT.Proofs.WalkerInstSimp
 
 /-!
 # C20 — work linear in the number of distinct nodes, no recursion over the nesting depth
@@ -65,6 +66,70 @@ theorem typecheck_const (g : Graph N) (d : N → Bool) (f0 : N → List R → Ex
     (hkids : ∀ c ∈ kids g d n, (look s.memo c).isSome) (hn : look s.memo n = none) :
     (walk g d (fun _ => f0) inval shortcut fuel n s).2.trace = n :: s.trace :=
   Walker.typecheck_const g d f0 inval shortcut fuel n s hi V hV hfuel r hok hkids hn
+
+/-! ### The recursive models of C01 / C12 are what the memoised iterative walk computes
+
+    Instantiation of the generic walker on the graph of `Term`s (`termGraph`: nodes = terms, children = `args`,
+    rank = `Term.size`, key = the term).  `FoldIdle d F s`: the walker `s` is idle and its memo holds values of `F`
+    only, closed under arguments -- every state reachable by earlier walks of the same walker, and the fresh one. -/
+
+/-- For any bottom-up function `F (.node op args p) = g (.node op args p) (args.map F)`: the walk with callbacks `g`
+    returns `F t`, invokes the callback exactly once per distinct sub-term of `t` not memoised before, and leaves a
+    walker of the same kind; `2·size t` loop iterations suffice. -/
+theorem walk_eq_fold {M R E : Type} [MemoLike M Term R] [LawfulMemo M Term R]
+    (g : Term → List R → R) (F : Term → R) (hF : ∀ t, F t = g t (t.args.map F))
+    (inval shortcut : Bool) (fuel : Nat) (t : Term) (s : WState M Term) (hi : FoldIdle (fun _ => false) F s)
+    (hfuel : 2 * t.size ≤ fuel) :
+    let r := walk termGraph (fun _ => false) (fun _ => cbOf (E := E) g) inval shortcut fuel t s
+    r.1 = .ok (F t) ∧
+    (∃ new, r.2.trace = new ++ s.trace ∧ new.Nodup ∧
+        (∀ x, x ∈ new ↔ (x ∈ t.subterms ∧ look s.memo x = none)) ∧ r.2.calls = s.calls + new.length) ∧
+    FoldIdle (fun _ => false) F r.2 :=
+  Walker.walk_eq_fold g F hF inval shortcut fuel t s hi hfuel
+
+/-- C01's model `simp (.node op args p) = rule_op p (args.map simp)` is computed by the `Simplifier` walk. -/
+theorem simplify_walk_eq_simp {M E : Type} [MemoLike M Term Term] [LawfulMemo M Term Term]
+    (inval shortcut : Bool) (fuel : Nat) (t : Term) (s : WState M Term)
+    (hi : FoldIdle (fun _ => false) Simplifier.simp s) (hfuel : 2 * t.size ≤ fuel) :
+    let r := walk termGraph (fun _ => false) (fun _ => cbOf (E := E) (simpCb Simplifier.ruleOf))
+               inval shortcut fuel t s
+    r.1 = .ok (Simplifier.simp t) ∧
+    (∃ new, r.2.trace = new ++ s.trace ∧ new.Nodup ∧
+        (∀ x, x ∈ new ↔ (x ∈ t.subterms ∧ look s.memo x = none)) ∧ r.2.calls = s.calls + new.length) ∧
+    FoldIdle (fun _ => false) Simplifier.simp r.2 :=
+  Walker.simplify_walk_eq_simp inval shortcut fuel t s hi hfuel
+
+/-- C12's `fvO` is computed by the `FreeVarsOracle` walk. -/
+theorem freevars_walk_eq {M E : Type} [MemoLike M Term (List Sym)] [LawfulMemo M Term (List Sym)]
+    (inval shortcut : Bool) (fuel : Nat) (t : Term) (s : WState M Term)
+    (hi : FoldIdle (fun _ => false) Oracles.fvO s) (hfuel : 2 * t.size ≤ fuel) :
+    let r := walk termGraph (fun _ => false)
+      (fun _ => cbOf (E := E) (fun n rs => Oracles.fvNode n.op n.payload rs)) inval shortcut fuel t s
+    r.1 = .ok (Oracles.fvO t) ∧
+    (∃ new, r.2.trace = new ++ s.trace ∧ new.Nodup ∧
+        (∀ x, x ∈ new ↔ (x ∈ t.subterms ∧ look s.memo x = none)) ∧ r.2.calls = s.calls + new.length) ∧
+    FoldIdle (fun _ => false) Oracles.fvO r.2 :=
+  Walker.freevars_walk_eq inval shortcut fuel t s hi hfuel
+
+/-- The tree-size measure (exponential in the number of distinct nodes on a diamond chain) is computed with one
+    callback per distinct sub-term. -/
+theorem size_tree_walk_eq {M E : Type} [MemoLike M Term Nat] [LawfulMemo M Term Nat]
+    (inval shortcut : Bool) (fuel : Nat) (t : Term) (s : WState M Term)
+    (hi : FoldIdle (fun _ => false) Oracles.treeO s) (hfuel : 2 * t.size ≤ fuel) :
+    let r := walk termGraph (fun _ => false)
+      (fun _ => cbOf (E := E) (fun (_ : Term) rs => 1 + rs.sum)) inval shortcut fuel t s
+    r.1 = .ok (Oracles.treeO t) ∧
+    (∃ new, r.2.trace = new ++ s.trace ∧ new.Nodup ∧
+        (∀ x, x ∈ new ↔ (x ∈ t.subterms ∧ look s.memo x = none)) ∧ r.2.calls = s.calls + new.length) ∧
+    FoldIdle (fun _ => false) Oracles.treeO r.2 :=
+  Walker.size_tree_walk_eq inval shortcut fuel t s hi hfuel
+
+-- non-vacuity: the fresh walker satisfies the hypotheses, for every term, with the budget `2·size t`
+example : FoldIdle (fun _ => false) Simplifier.simp (WState.init : WState (AMemo Term Term) Term) := foldIdle_init _ _
+example (t : Term) :
+    (walk termGraph (fun _ => false) (fun _ => cbOf (E := Unit) (simpCb Simplifier.ruleOf)) false true (2 * t.size) t
+        (WState.init : WState (AMemo Term Term) Term)).1 = .ok (Simplifier.simp t) :=
+  (Walker.simplify_walk_eq_simp false true _ t _ (foldIdle_init _ _) (Nat.le_refl _)).1
 
 /-! ### Non-vacuity: a diamond chain (tree size 2^4 − 1 = 15, 4 distinct nodes) -/
 
